@@ -19,3 +19,6 @@ pub use rules::RuleKind;
 
 #[cfg(test)]
 pub mod tests;
+
+#[cfg(feature = "verif")]
+pub mod verif_hooks;
